@@ -1,5 +1,6 @@
 import HdModel.Model.Util
 import HdModel.Spec.Pool
+import HdModel.Model.PoolCompact
 namespace Hd.Pool
 
 def splitSemi (l : List String) : List (List String) :=
@@ -19,6 +20,8 @@ def parseOp : List String → Option Op
   | ["run"] => some .run
   | ["t", ms] => some (.tick (natTok ms))
   | ["mark"] => some .mark
+  -- another thread holds the pool's mutex for a while: whoever needs it waits, nothing else happens
+  | ["hold"] => some .mark
   | ["shutdown"] => some .shutdown
   | _ => none
 
@@ -71,6 +74,7 @@ structure Acc where
   agree    : Bool := true
   cls      : List String := []        -- every class of violation seen, in order of first occurrence
   shown    : List String := []
+  nops     : Nat := 0
 
 def addCls (l : List String) : Option String → List String
   | none => l
@@ -88,11 +92,16 @@ def stepCase (cfg : Config) (a : Acc) (op : Op) (io : IObs) : Acc :=
     | .poll r => if strandedAt a.s r io.res then { a with cls := addCls a.cls (some "C03/stranded") } else a
     | _ => a
   let (s', mres) := step a.s op
+  -- long histories: re-tabulate the function-valued fields now and then (`compact_eq`: it is the same state)
+  let s' := if a.nops % 32 == 31 then compact s' else s'
+  let a := { a with nops := a.nops + 1 }
   let mo := snapshot s' mres
   let same := sameRes mo.res io.res && sameState mo io
   -- bookkeeping-only difference (waiter queue / marker): a disagreement, but keep following the run
   -- so that the first *observable* departure can be classified
-  let observable := !(sameRes mo.res io.res) || mo.idle != io.idle || mo.drops != io.drops || mo.dials != io.dials
+  -- … likewise when the same connection is handed out and only its "re-used" label differs
+  let sameConn := match mo.res, io.res with | .got c1 _, .got c2 _ => c1 == c2 | _, _ => false
+  let observable := !(sameRes mo.res io.res || sameConn) || mo.idle != io.idle || mo.drops != io.drops || mo.dials != io.dials
   if same then { a with s := s', shown := a.shown ++ [showIObs mo] }
   else if !observable then { a with s := s', agree := false, shown := a.shown ++ [showIObs mo ++ " <"] }
   else
@@ -176,5 +185,40 @@ def connLine (inp obs : List String) : Bool × Bool × String × String :=
   let cls := bad.foldl (fun acc c => if acc.contains c then acc else acc ++ [c]) ([] : List String)
   (cls.isEmpty, cls.isEmpty, if cls.isEmpty then "-" else ",".intercalate cls,
    if h2 then "can_share = 1, is_open until the peer is gone" else "is_open = (poll_ready = Ready(Ok)), can_share = 0")
+
+end Hd.Pool
+
+namespace Hd.Pool
+
+/-- Stream `cfgp`: a client assembled by `Client::builder` with a pool configuration given in one of several ways
+    (`<seq>` - irrelevant to the model: however the configuration gets there, it is the one the pool enforces),
+    a burst of `n` concurrent HTTP/1.1 requests to one origin, all answered and released; then, after `wait` ms,
+    one more request. Observed: connections still open once the burst has settled, and connections accepted in all.
+    The model runs the same history through the pool model with that configuration.
+    `cfgp <seq> <maxIdle> <idleTimeout ms|-> <n> <wait ms> | <open> <total>` -/
+def cfgpLine (inp obs : List String) : Bool × Bool × String × String :=
+  if obs == ["unreliable"] then (true, true, "-", "skipped") else
+  match inp, obs with
+  | [_seq, mi, it, nT, waitT], [openT, totalT] =>
+    let cfg : Config := { idleTimeout := idleTok it, maxIdle := natTok mi, cap := true, lax := false }
+    let n := natTok nT
+    let rs := List.range n
+    let ops : List Op :=
+      (rs.flatMap fun r => [.issue r 0 false, .poll r]) ++ (rs.flatMap fun r => [.dialDone r (.ok .asRequested), .poll r]) ++
+      (rs.flatMap fun r => [.finish r, .connReady r, .run])
+    let s := ops.foldl (fun s op => (step s op).1) (init cfg)
+    let t := (tokenOf s 0).2
+    let kept := (s.idle t).length
+    let s := (step s (.tick (natTok waitT + 20))).1
+    let s := (step s (.issue 100 0 false)).1
+    let (_, res) := step s (.poll 100)
+    let total := match res with | .got _ _ => n | _ => n + 1
+    let shown := s!"{kept} {total}"
+    let okOpen := openT == toString kept
+    let okTotal := totalT == toString total
+    let cls := (if natTok openT > kept then ["C15/configured-idle-limit-not-enforced"] else if !okOpen then ["C04/connection-destroyed"] else []) ++
+      (if okOpen && !okTotal then [if natTok totalT > total then "C04/idle-not-reused" else "C05/expired-connection-kept-or-used"] else [])
+    (cls.isEmpty, cls.isEmpty, if cls.isEmpty then "-" else ",".intercalate cls, shown)
+  | _, _ => (false, false, "C15/unparsable-observation", "")
 
 end Hd.Pool
